@@ -5,6 +5,7 @@ import (
 	"math"
 	"os"
 	"path/filepath"
+	"regexp"
 	"strings"
 	"time"
 
@@ -35,6 +36,8 @@ var c13Mods = []string{"default", "ifThen", "ifThenElse", "jsonEscape", "jsonQuo
 	"round", "roundPrec", "ceil", "ceilPrec", "floor", "floorPrec", "time::now", "time::format", "time::date", "time::add", "time::date_modify",
 	"math::abs", "math::inc", "math::dec", "math::add", "math::sub", "math::mul", "math::div", "math::mod", "math::sqrt", "math::cbrt", "math::radical", "math::rad", "math::exp", "math::log",
 	"math::factorial", "math::fact", "math::max", "math::min", "math::pow", "def", "if", "ifel", "je", "jq", "he", "le", "ue", "ae", "ce", "jse", "roundp", "ceilp", "floorp"}
+
+var c13ReCLoop = regexp.MustCompile(`for\s+\w+\s*:?=[^;%]*;`)
 
 var c13Helpers = []string{"lenEq0", "lenGt0", "lenGtq0"}
 
@@ -241,6 +244,7 @@ func init() {
 			}
 			var ns []string
 			var vs []c13Val
+			hasCounterLoop := c13ReCLoop.MatchString(src)
 			for _, n := range names {
 				if r.Rng.Intn(3) > 0 {
 					ns = append(ns, n)
@@ -253,6 +257,12 @@ func init() {
 						case "lst", "list":
 							v = c13Val{"strs", []string{"a", "b", "c"}}
 						}
+					}
+					// a counter loop bounded by a variable of 9e18 (or ±Inf, 1e308 converted to an integer) runs that
+					// many iterations — what the template asks for, not a hang inside dyntpl: not used as data of
+					// templates with counter loops
+					if hasCounterLoop && (v.Name == "maxint64" || v.Name == "minint64" || v.Name == "maxuint64" || v.Name == "huge" || v.Name == "f1e18" || v.Name == "+Inf" || v.Name == "-Inf" || v.Name == "NaN") {
+						v = c13Val{"int7", 7}
 					}
 					vs = append(vs, v)
 				}
